@@ -5,7 +5,7 @@ REFNOTE = "Trusted base: libcrypto single-block AES/DES/SM4 and plain MD5/SHA/SM
 claimed = {
  "C09": ("exploration", "cross-entry-point differential: every work item through a direct/sync-burst entry point vs the job API",
    "Seeded plans of synchronous cipher/hash/AEAD bursts (sizes 1..128, checked and no-check) and direct calls: GCM one-shot and init/update/finalize (seeded partitions), GMAC init/update/finalize, GHASH, SHA one-shot, the twelve CRC functions, ZUC EEA3 1/4/n-buffer and EIA3 1/n-buffer, SNOW3G F8 1/2/4/8/n(+multikey)/bit and F9, KASUMI F8 1/2/3/4/n/bit and F9, ChaCha20-Poly1305 init/update/finalize; n-buffer calls use n below, equal to and above the lane count with unequal lengths. Each buffer's output/tag must be byte-identical to the same work item submitted alone through the job API on the same variant (and to the reference where one is admitted); a sync burst must return n with every job COMPLETED. Checked/no-check single-job submit and the asynchronous burst API are compared with the job API in the C04/C05 profiles (solo oracle).",
-   "Not yet covered: SHA one-block, HEC, QUIC batch helpers, single-block CFB (no job-API equivalent for partial blocks). Sync bursts are issued on an idle manager only (F12, sync burst while async jobs are parked, is not explored)."),
+   "QUIC batch helpers (AES-GCM and ChaCha20-Poly1305 batches vs the one-shot jobs; header-protection masks vs AES-ECB / ChaCha20 references), single-block AES-CFB (vs in xor E(iv)) and the SHA-1/224/256/384/512/MD5 one-block functions (vs libcrypto's compression function) are compared with references directly because they have no job-API equivalent. Not covered: the PON HEC helpers. Sync bursts are issued on an idle manager only (F12, sync burst while async jobs are parked, is not explored)."),
  "C10": ("exploration", "segmentation (the partition of the message is the schedule): SGL streams interleaved with other traffic vs the one-shot job",
    "GCM-SGL and ChaCha20-Poly1305-SGL streams (INIT/UPDATE.../COMPLETE jobs with a context carried between calls) are split by seeded ordered partitions (1..12 segments, zero-length segments, cuts inside 16- and 64-byte blocks) and their segment jobs are interleaved with other jobs, other SGL streams and flushes; segment-list (IMB_SGL_ALL) jobs and the direct GCM/GMAC/ChaCha20-Poly1305 init-update-finalize calls (C09 profile) are partitioned the same way. At COMPLETE the concatenated output and the tag must equal the non-SGL one-shot job on the same variant and the reference.",
    "Partitions are sampled; the exhaustive 2-cut enumeration of DESIGN.md is thorough-tier work. Both directions, all key sizes, all 12 configurations."),
